@@ -239,13 +239,19 @@ func processAttack(
 	sig <-chan os.Signal,
 	pm *prom.Metrics,
 ) error {
+	signalled := false
 	for {
 		select {
 		case <-sig:
-			if stopSent := atk.Stop(); !stopSent {
+			if signalled {
 				// Exit immediately on second signal.
 				return nil
 			}
+			// The attack may have stopped itself already (its targets ran
+			// dry, say): Stop then reports false on the first signal too,
+			// and the results still in flight must be waited for all the same.
+			signalled = true
+			atk.Stop()
 		case r, ok := <-res:
 			if !ok {
 				return nil
